@@ -30,7 +30,7 @@ use rand::{RngExt, SeedableRng};
 use serde_json::{Value, json};
 use sozu_command_lib::config::ListenerBuilder;
 use sozu_command_lib::proto::command::{
-    ActivateListener, AddCertificate, CertificateAndKey, Cluster, ListenerType, request::RequestType,
+    ActivateListener, AddCertificate, CertificateAndKey, Cluster, ListenerType, Status, request::RequestType,
 };
 use vh::h2::*;
 use vh::worker::{LOCAL_CERT, LOCAL_KEY, Worker, free_addr, ok, server_config};
@@ -1627,6 +1627,11 @@ fn main() {
     stop_origin.store(true, Ordering::SeqCst);
     // a panic of the worker thread is data
     let worker_panic = match w.join_within(Duration::from_millis(200)) { Err(m) => Some(m), _ => None };
+    // ... and so is a worker that no longer serves its command channel (spinning in a session): whatever the load of the
+    // machine, a live event loop answers Status within a minute
+    let worker_wedged = if worker_panic.is_none() && !w.is_finished() && w.request(RequestType::Status(Status {}), Duration::from_secs(60)).is_none() {
+        Some("the worker thread does not answer a Status request within 60 s")
+    } else { None };
     let results = sh.results.lock().unwrap();
     for r in results.iter() { vh::util::emit(r); }
     let count = |o: &str| results.iter().filter(|r| r["outcome"] == o).count();
@@ -1634,7 +1639,7 @@ fn main() {
         "done": count("done"), "stall": count("stall"), "closed": count("closed"), "inconclusive": count("inconclusive"),
         "garbled": count("garbled"),
         "half_frame_wu_pending": HALF_FRAME_WU.load(Ordering::Relaxed), "half_frame_zero_deferred": HALF_FRAME_ZERO.load(Ordering::Relaxed),
-        "worker_panic": worker_panic, "panics": PANICS.lock().map(|p| p.clone()).unwrap_or_default(), "wall_s": t0.elapsed().as_secs_f64(),
+        "worker_panic": worker_panic, "worker_wedged": worker_wedged, "panics": PANICS.lock().map(|p| p.clone()).unwrap_or_default(), "wall_s": t0.elapsed().as_secs_f64(),
         "data_bytes": results.iter().map(|r| r["data_bytes"].as_i64().unwrap_or(0)).sum::<i64>()}));
     std::process::exit(0);
 }
